@@ -32,7 +32,9 @@ class C11(scen.WorldProp):
                   "T+3+I*index for any number of rows provided the 10 ms tick sleep is shorter than I; 5040 rows at "
                   "gap 1 take exactly m minutes. correspondence: timed sessions, all bells Wheatley's, N 4..16, peal "
                   "speeds through the real parse_peal_speed in every documented form, gaps 0..3, up to 40 rows, clock "
-                  "origins 1e3..1.8e9, both rhythm wrappers; oracle: closed form on every strike (abs tol 2e-6 s). "
+                  "origins 1e3..1.8e9, both rhythm wrappers, and touches that follow an accompanied touch of the same "
+                  "session; the tick loop `soloTimes` that `solo_closed_form` is about is itself evaluated by the driver "
+                  "for each configuration and compared with the implementation's strike times; oracle: closed form on every strike (abs tol 2e-6 s). "
                   "non-trivial = at least 3 rows rung")
 
     def after_accompanied(self, rng, tier):
@@ -82,7 +84,7 @@ class C11(scen.WorldProp):
             assert ps == m
             g = rng.choice([0.0, 1.0, 1.0, 2.0, 0.5, 3.0])
             origin = rng.choice([1000.0, 1.0e6, 1.7e9, 1.8e9, 12345.678])
-            t0 = origin + rng.random()
+            t0 = origin + 0.25 + rng.random()      # (after the tower state has loaded)
             I = scen.interval(ps, N)
             rows = rng.randint(3, 40 if tier == "thorough" else 20)
             end = t0 + 3 + I * scen.blow_index(N, g, rows, 0) + 0.5 * I
@@ -91,6 +93,36 @@ class C11(scen.WorldProp):
                   "rhythm": scen.rhythm_cfg(rng.choice(["wait", "regression"]), inertia=rng.choice([0.0, 0.5, 1.0]),
                                             peal_speed=ps, gap=g)}
             yield {"k": "world", "scenario": sc, "t0": t0, "speed_text": s}
+
+    def to_model(self, req):
+        world = super().to_model(req)
+        sc = req["scenario"]
+        rh = sc["rhythm"]
+        N = sc["tower_size"]
+        rows = 0 if world is None else 1 + int((sc["end"] - req["t0"] - 3) / (scen.interval(rh["peal_speed"], N) * N))
+        solo = {"k": "solo", "N": N, "rows": min(rows, 60), "inertia": rh["inertia"], "peal_speed": rh["peal_speed"],
+                "gap": rh["gap"], "start": scen.f2b(req["t0"] + 3), "now": scen.f2b(req["t0"] + 0.03)}
+        return {"k": "multi", "reqs": [world, solo]}
+
+    def compare(self, req, ir, mr):
+        if "driver_error" in mr:
+            return "driver_error: " + mr["driver_error"]
+        world, solo = mr["replies"]
+        d = super().compare(req, ir, world)
+        if d:
+            return d
+        sc = req["scenario"]
+        if scen.interval(sc["rhythm"]["peal_speed"], sc["tower_size"]) <= 0.010001:
+            return None                     # (outside the domain of the closed form: known finding)
+        # the tick loop the theorem `solo_closed_form` is about, evaluated for this configuration
+        rings = [t for (t, b, h) in scen.rings(ir) if t >= req["t0"]]
+        times = [scen.b2f(x) for x in solo["times"]]
+        for k, (a, b) in enumerate(zip(rings, times)):
+            if abs(a - b) > 2e-6:
+                return f"strike {k}: implementation at {a!r}, the tick-loop model soloTimes says {b!r}"
+        if len(times) < min(len(rings), 60 * sc["tower_size"]):
+            return f"soloTimes produced {len(times)} strikes, the implementation {len(rings)}"
+        return None
 
     def nontrivial(self, req, reply):
         if "humans_before" in req and scen.b2f(reply.get("delay", 0)) <= 0.01:
